@@ -8,19 +8,19 @@ import time
 from rustex import ExtractError
 import verusgen
 
-# After Verus has accepted the generated text (no VIR/compile error), every located `error:` is a failed
-# proof obligation (postcondition / precondition / invariant / assertion / overflow / bounds / decreases ...),
-# except the resource-limit family, which means "undecided".
-NON_REFUTE_PAT = re.compile(r'(resource limit|rlimit|timed? ?out|aborting due to|internal error|panicked)', re.I)
-
-
-class _Refute:
-    @staticmethod
-    def match(s):
-        return None if NON_REFUTE_PAT.search(s) else True
-
-
-REFUTE_PAT = _Refute
+# A located `error:` is a REFUTATION only if it is one of Verus' proof-failure messages (no rustc error code).
+# Everything else - rustc errors `error[E....]` (the changed code no longer fits the prelude's types), "not
+# supported" / "does not yet support" (outside Verus' subset), resource limits - means UNDECIDED (exit 2).
+REFUTE_PAT = re.compile(
+    r'^error: (postcondition not satisfied|precondition not satisfied|'
+    r'(loop )?invariant not satisfied[^\n]*|(loop )?invariant not preserved[^\n]*|'
+    r'assertion failed|possible arithmetic underflow/overflow|possible division by zero|'
+    r'decreases not satisfied[^\n]*|could not prove termination[^\n]*|'
+    r'possible bit shift underflow/overflow|value may be out of range of the target type[^\n]*|'
+    r'unable to prove[^\n]*|cannot show invariant holds[^\n]*|'
+    r'index out of bounds[^\n]*|possible (slice|array|vector) index out of bounds[^\n]*|'
+    r'requires not satisfied[^\n]*|ensures not satisfied[^\n]*|assert_by[^\n]* failed[^\n]*|'
+    r'failed (this )?(precondition|postcondition)[^\n]*)', re.M)
 ERR_PAT = re.compile(r'^error(\[E\d+\])?: ([^\n]*)\n\s*--> ([^:\n]+):(\d+):(\d+)', re.M)
 
 
